@@ -479,7 +479,7 @@ def check_calc_kT_fint(led):
     """Panel.calc_kT = fkL_num(NLgeom=1) + fkG_num(NLgeom=1) with the caller's state; Panel.calc_fint passes state, laminate, offsets"""
     from ..kernel import InArray
     it, calls = mk()
-    for geom, szform in itertools.product(('plate', 'cpanel'), ('default', 'given')):
+    for geom, szform, opts in itertools.product(('plate', 'cpanel'), ('default', 'given'), ('defaults', 'table+grid')):
         holder = {}
         for method in ('calc_kT', 'calc_fint'):
             func = PF + method
@@ -492,14 +492,22 @@ def check_calc_kT_fint(led):
                 del calls[:]
                 skw, sw = sizes(it, szform, g, kw)
                 c = InArray('c', shape=(sw['size'],))
-                holder.update(kw=kw, want=want, g=g, sw=sw, c=c)
+                extra = {}
+                exp = dict(F=want['lam.ABD'], nx=kw['m'], ny=kw['n'])
+                if opts == 'table+grid':
+                    nxq, nyq = integer('nxq'), integer('nyq')
+                    Fn = InArray('Fnxny_user', shape=(nxq, nyq, 6, 6))
+                    extra = dict(Fnxny=Fn, nx=nxq, ny=nyq)
+                    exp = dict(F=Fn, nx=nxq, ny=nyq)
+                holder.update(kw=kw, want=want, g=g, sw=sw, c=c, exp=exp)
                 if method == 'calc_kT':
-                    return it.call(it.getattr(p, 'calc_kT'), [], dict(skw, c=c, silent=True))
+                    return it.call(it.getattr(p, 'calc_kT'), [], dict(skw, c=c, silent=True, **extra))
                 a_ = dict(size=skw.get('size'), col0=skw.get('col0', 0), silent=True) if skw else dict(silent=True)
+                a_.update(extra)
                 return it.call(it.getattr(p, 'calc_fint'), [c], a_)
             for path, out in it.explore(run):
-                g, kw, want, sw = holder['g'], holder['kw'], holder['want'], holder['sw']
-                name = '%s[%s,size=%s]' % (func, geom, szform)
+                g, kw, want, sw, exp = holder['g'], holder['kw'], holder['want'], holder['sw'], holder['exp']
+                name = '%s[%s,size=%s,%s]' % (func, geom, szform, opts)
                 if out[0] != 'return':
                     report(led, name + '/no-exception', func, ['raises %s%s' % (out[1].tname, tuple(str(a)[:80] for a in out[1].eargs))], signature='raise:' + out[1].tname)
                     continue
@@ -522,12 +530,12 @@ def check_calc_kT_fint(led):
                             probs.append('%s does not receive the caller state' % x.f['fn'])
                         if panelctx.vkey(a_.get('NLgeom')) != panelctx.vkey(1):
                             probs.append('%s called with NLgeom=%s, expected 1' % (x.f['fn'], pycheck.describe(a_.get('NLgeom'))))
-                        if panelctx.vkey(a_.get('Finput')) != panelctx.vkey(want['lam.ABD']):
-                            probs.append('%s: laminate is not the ABD of the panel definition' % x.f['fn'])
+                        if panelctx.vkey(a_.get('Finput')) != panelctx.vkey(exp['F']):
+                            probs.append('%s: laminate is %s, expected %s' % (x.f['fn'], pycheck.describe(a_.get('Finput')), 'the table of the call' if opts != 'defaults' else 'the ABD of the panel definition'))
                         for k2 in ('size', 'row0', 'col0'):
                             if panelctx.vkey(a_.get(k2)) != panelctx.vkey(sw[k2]):
                                 probs.append('%s: %s = %s, expected %s' % (x.f['fn'], k2, pycheck.describe(a_.get(k2)), pycheck.describe(sw[k2])))
-                        for k2, wv in (('nx', kw['m']), ('ny', kw['n'])):
+                        for k2, wv in (('nx', exp['nx']), ('ny', exp['ny'])):
                             if panelctx.vkey(a_.get(k2)) != panelctx.vkey(wv):
                                 probs.append('%s: %s = %s, expected %s' % (x.f['fn'], k2, pycheck.describe(a_.get(k2)), pycheck.describe(wv)))
                         probs += [d_ for d_ in pycheck.diff_kernel(x, x.f['fn'], g['model'] + '_num', {}, want) if 'argument' not in d_]
@@ -538,9 +546,9 @@ def check_calc_kT_fint(led):
                         a_ = r.f['args']
                         if getattr(a_.get('cs'), 'name', None) != 'c':
                             probs.append('the kernel does not receive the caller state')
-                        if panelctx.vkey(a_.get('Finput')) != panelctx.vkey(want['lam.ABD']):
-                            probs.append('laminate is not the ABD of the panel definition')
-                        for k2, wv in (('size', sw['size']), ('col0', sw['col0']), ('nx', kw['m']), ('ny', kw['n'])):
+                        if panelctx.vkey(a_.get('Finput')) != panelctx.vkey(exp['F']):
+                            probs.append('laminate is %s' % pycheck.describe(a_.get('Finput')))
+                        for k2, wv in (('size', sw['size']), ('col0', sw['col0']), ('nx', exp['nx']), ('ny', exp['ny'])):
                             if panelctx.vkey(a_.get(k2)) != panelctx.vkey(wv):
                                 probs.append('%s = %s, expected %s' % (k2, pycheck.describe(a_.get(k2)), pycheck.describe(wv)))
                         probs += [d_ for d_ in pycheck.diff_kernel(r, 'calc_fint', g['model'] + '_num', {}, want) if 'argument' not in d_]
